@@ -428,6 +428,9 @@ def main(tier):
         e, _ = project(b, f"ctl/replayer/{name}", "exact", c0["fam"], False, ref_of[c0["t"]], outs[i0], b.rots[c0["r"] - 1], mats[i0], wrong)
         ctl.append((e, [clause], None, True))
     a0 = ref_of[c0["t"]]["hexagonal_axis"] if _finite(ref_of[c0["t"]]) else np.array([0.0, 0.0, 1.0])
+    a0 = np.asarray(a0, dtype=float).reshape(-1)
+    if a0.shape != (3,) or not np.all(np.isfinite(a0)) or abs(float(np.linalg.norm(a0)) - 1.0) > 1e-6:
+        a0 = np.array([0.0, 0.0, 1.0])   # a broken implementation must not break the construction of a control
     rw = next(r for r in range(25, 41) if min(np.max(np.abs(b.rots[r - 1] @ a0 - b.rots[c0["r"] - 1] @ a0)), np.max(np.abs(b.rots[r - 1] @ a0 + b.rots[c0["r"] - 1] @ a0))) > 0.1)
     e, _ = project(b, "ctl/replayer/wrong-rotation", "exact", c0["fam"], False, ref_of[c0["t"]], outs[i0], b.rots[rw - 1], mats[i0], exp0)
     ctl.append((e, ["axis-does-not-corotate"], None, True))
